@@ -1,5 +1,34 @@
 # C17 -- neural-network routines: output-shape formulas and window indexing
-META = dict(level='proof', level_text='wip', level_note='wip', trusted_base=[], assumptions=[], not_covered=[])
+META = dict(
+    level='proof',
+    level_text='Only output-shape formulas and window / index helpers are covered, not element values. '
+               'Proved for every input satisfying the stated preconditions (loops closed by loop contracts or of constant trip count; bit-precise incl. the float kernel): '
+               'index::shape_pool2d equals the PyTorch output-extent formula in floor mode and in ceil mode (incl. the rule that the last window must start inside the input) for spatial extents / strides 1..256, '
+               'outside the known finding (ceil mode with stride > kernel keeps a window that starts beyond the input); '
+               'index::slice_pool2d yields for every PyTorch output position the window [o*s, o*s+k) which starts inside the input, never overhangs in floor mode and overhangs by less than k in ceil mode (apply_slice clamps the stop: effective window [o*s, min(o*s+k, n))); '
+               'index::shape_sliding_window / index::sliding_window equal numpy sliding_window_view (shape; src index = window origin + in-window offset, always inside the source shape); '
+               'the convnd argument helpers (input / weight / reduce / bias reshapes, kernel size, dilation spacing, padding widths) produce the shapes PyTorch semantics require, outside three known findings '
+               '(batch extent dropped, grouped weight layout, dilation order). The composition of the stage formulas into floor((n+2p-d(k-1)-1)/s)+1 is a Lean lemma.',
+    level_note='Element values (sums over windows, max/avg, bias, normalisations) are NOT verified. The float kernel of shape_pool2d is decided bit-precisely by SAT, which bounds the extents: quick tier 1..256 '
+               '(the property needs 1..7); measured: 4096 takes 1-2 min per axis and mode, 65536 > 10 min. Beyond 2^24 the float formula is wrong: n-k = 16777219, s = 2 gives 8388611 instead of 8388610 (float has 24 bits). '
+               'Trusted: clang AST, cxx2c rendering, CBMC, C models of std::array; Lean 4 kernel for the composition lemma.',
+    trusted_base=['clang 14 front end (AST of the instantiated templates)', 'engine/cxx2c.py (C++ AST -> C rendering)',
+                  'cbmc 6.11.0 / goto-instrument --dfcc (contract instrumentation, SAT back end, IEEE-754 float model)',
+                  'C models of std::array / std::optional (generated prelude)',
+                  'spec/c17.h: PyTorch pooling_output_shape and numpy sliding_window_view written as C predicates',
+                  'lemmas/c17_conv_out.lean: stage formulas (pad n+2p, dilated kernel k+(k-1)(d-1), window count m-ke+1, strided length ceil(m/s)) are taken from the contracts of C04 (pad), C17 (sliding window) and C05 (slice length); their composition is the lemma'],
+    assumptions=['configuration -DNDEBUG, STL enabled; pooling on NCHW shapes std::array<size_t,4> and on utl::static_vector<size_t,8> (rank 2..8), kernel/stride std::array<size_t,2>, run-time bool ceil_mode',
+                 'pooling arguments with a positive output size: 1 <= kernel <= extent, stride >= 1 (the view does not check; kernel > extent wraps around in size_t and overflows the float->int conversion), extents and strides <= 256',
+                 'slice_pool2d: output position inside the PyTorch output shape (the view uses the shape computed by shape_pool2d, which differs inside the known-finding region)',
+                 'sliding window: window extents >= 1 and fitting the axis (numpy raises otherwise; the library does not check), axes in range; extents <= INT_MAX for the axes kind',
+                 'conv helpers: n_planes = 2 (conv2d); weight helper contract uses symbolic division and is decided for Co, groups <= 64 with groups | Co; conv_reshape_input / conv_reshape_reduce: division / product uninterpreted (mode uf)'],
+    not_covered=['element values of conv / pooling (sum over the window, max, mean, bias add): composition over the view pipeline',
+                 'softmax / softmin, batch / layer / instance / group norm, linear, bilinear, pairwise_distance, cosine_similarity: float compositions without an index helper of their own',
+                 'conv_window_axis, conv_sum_axes, conv_slices for a compile-time n_planes: results are compile-time constants (type level, no code)',
+                 'conv1d (n_planes = 1) instantiations of the helpers (same code, other constant)',
+                 'compile-time (constant index) shape paths and the maybe-lifting glue',
+                 'pooling with padding / dilation (not implemented by the library)'],
+)
 UNITS = [
     Unit('shape_pool2d.bp', 'c17', 'verif_shape_pool2d', mode='bp', unwind=10, clause='pooling output shape, floor and ceil mode'),
     Unit('shape_pool2d_sv.bp', 'c17', 'verif_shape_pool2d_sv', mode='bp', unwind=10, clause='pooling output shape, floor and ceil mode (rank 2..8: leading axes kept)'),
@@ -8,11 +37,14 @@ UNITS = [
     Unit('shape_sliding_window_none.bp', 'c17', 'verif_shape_sliding_window_none', mode='bp', unwind=12, clause='sliding window shape (axis=None): every axis shrinks by its window-1, window extents appended'),
     Unit('sliding_window_axes.bp', 'c17', 'verif_sliding_window_axes', mode='bp', unwind=12, unwind_loops={'index_sliding_window__rstatic_vector_ul_10': 3}, timeout=1500, clause='sliding window index: src = dst window origin + offset in window; inside the source shape'),
     Unit('sliding_window_none.bp', 'c17', 'verif_sliding_window_none', mode='bp', unwind=12, clause='sliding window index (axis=None): src = origin + offset; inside the source shape'),
-    Unit('conv_reshape_input.bp', 'c17', 'verif_conv_reshape_input', mode='bp', unwind=12, unwind_loops={'conv_reshape_input': 3}, clause='conv: input viewed as (N, 1, G, C/G, H, W) -- batch kept, channels split into groups'),
+    Unit('conv_reshape_input.uf', 'c17', 'verif_conv_reshape_input', mode='uf', unwind=12, unwind_loops={'conv_reshape_input': 3}, clause='conv: input viewed as (N, 1, G, C/G, H, W) -- batch kept, channels split into groups'),
     Unit('conv_reshape_weight.bp', 'c17', 'verif_conv_reshape_weight', mode='bp', unwind=12, unwind_loops={'conv_reshape_weight': 2}, clause='conv: weight viewed with a group axis such that output channel c belongs to group c / (Co/G)'),
     Unit('conv_reshape_reduce.uf', 'c17', 'verif_conv_reshape_reduce', mode='uf', unwind=12, unwind_loops={'conv_reshape_reduce': 4}, clause='conv: summed result viewed as (N, Co, H_out, W_out)'),
     Unit('conv_reshape_bias.bp', 'c17', 'verif_conv_reshape_bias', mode='bp', unwind=12, clause='conv: bias viewed as (Co, 1, 1)'),
     Unit('conv_kernel_size.bp', 'c17', 'verif_conv_kernel_size', mode='bp', unwind=12, unwind_loops={'conv_kernel_size': 3}, clause='conv: window extents (kw, kh) for the window axes (-1, -2)'),
     Unit('conv_expand_spacing.bp', 'c17', 'verif_conv_expand_spacing', mode='bp', unwind=12, unwind_loops={'conv_expand_spacing': 3}, clause='conv: dilation index helper -- spacing per window axis'),
     Unit('conv_pad.bp', 'c17', 'verif_conv_pad', mode='bp', unwind=12, unwind_loops={'conv_pad': 3}, clause='conv: zero padding widths on the two spatial axes only'),
+]
+LEMMAS = [
+    Lemma('conv_out_extent', 'c17_conv_out.lean', clause='conv output extent: the composed stage formulas equal floor((n + 2p - d(k-1) - 1)/s) + 1'),
 ]
